@@ -232,6 +232,18 @@ public:
             return true;
         } else { (void)perKernel; (void)merged; (void)mergeSeed; return false; }
     }
+    bool topCounters(std::array<long, 7>& counts) override {
+        if constexpr (Cfg::hasCounters && Cfg::periodic) {
+            if (!top) return false;
+            counts = std::array<long, 7>{{0, 0, 0, 0, 0, 0, 0}};
+            top->applyToAllKernels([&counts](const auto& k) {
+                const auto r = k.getReduceData();
+                const long v[7] = {r.P2M, r.M2M, r.M2L, r.L2L, r.L2P, r.P2P, r.P2PInner};
+                for (int i = 0; i < 7; ++i) counts[size_t(i)] += v[i];
+            });
+            return true;
+        } else { (void)counts; return false; }
+    }
     bool isTaskBased() const override { return execIsTask(Exec); }
     long effectiveBlockSize() override {
         if constexpr (Tsm) return tree->getNbElementsPerGroupSource(); else return tree->getNbElementsPerGroup();
